@@ -220,6 +220,74 @@ MUTATIONS = {
         old='        return tuple.__new__(cls, [int(x, 16) for x in match.groups("ff")])',
         new='        return tuple.__new__(Color, [int(x, 16) for x in match.groups("ff")])',
     ),
+    # ---- need something specific to manifest ------------------------------------------------------
+    "x01-exact-dims-cached-without-minimum": dict(
+        # a cache of the exact dimensions keyed by alignment and render size only: the result
+        # depends on which padding asked first (history-dependent)
+        edits=[
+            dict(file="padding.py", old="_ALIGN_RATIOS = ((0, 1), (1, 2), (1, 1))\n",
+                 new="_ALIGN_RATIOS = ((0, 1), (1, 2), (1, 1))\n_DIMS_CACHE = {}\n"),
+            dict(file="padding.py", old="""        if self.relative:
+            raise RelativePaddingDimensionError("Relative minimum render dimension(s)")
+
+        width, height, h_align, v_align = astuple(self)[:4]
+        render_width, render_height = render_size
+""", new="""        if self.relative:
+            raise RelativePaddingDimensionError("Relative minimum render dimension(s)")
+
+        key = (self.h_align, self.v_align, tuple(render_size))
+        if key in _DIMS_CACHE:
+            return _DIMS_CACHE[key]
+        _DIMS_CACHE[key] = result = self._compute_dims(render_size)
+        return result
+
+    def _compute_dims(self, render_size):
+        width, height, h_align, v_align = astuple(self)[:4]
+        render_width, render_height = render_size
+"""),
+        ],
+    ),
+    "x01-to-exact-empty-fill-becomes-space": dict(
+        file="padding.py",
+        old="            else ExactPadding(*self._get_exact_dimensions_(render_size), self.fill)",
+        new="            else ExactPadding(*self._get_exact_dimensions_(render_size), self.fill or \" \")",
+    ),
+    "x01-relative-ignores-zero-height": dict(
+        file="padding.py",
+        old='        _setattr("relative", not width > 0 < height)',
+        new='        _setattr("relative", not width > 0 <= height)',
+    ),
+    "x01-resolve-one-axis-only": dict(
+        # when both dimensions are relative only the width is resolved
+        file="padding.py",
+        old="        if height <= 0:\n            height = max(terminal_height + height, 1)",
+        new="        elif height <= 0:\n            height = max(terminal_height + height, 1)",
+    ),
+    "x01-size-equality-class-sensitive": dict(
+        # a Size no longer equals a RawSize / tuple with the same fields
+        file="geometry.py",
+        old="    __slots__ = ()\n\n    def __new__(cls, width: int, height: int) -> Self:\n        if width < 1:",
+        new="    __slots__ = ()\n\n    def __eq__(self, other):\n        return isinstance(other, Size) and tuple.__eq__(self, other)\n\n"
+            "    def __ne__(self, other):\n        return not self == other\n\n    __hash__ = tuple.__hash__\n\n"
+            "    def __new__(cls, width: int, height: int) -> Self:\n        if width < 1:",
+    ),
+    "x01-color-hash-includes-class": dict(
+        file="color.py",
+        old="    __slots__ = ()\n\n    # Overrides these descriptors",
+        new="    __slots__ = ()\n\n    def __hash__(self):\n        return hash((type(self).__name__, tuple(self)))\n\n    # Overrides these descriptors",
+    ),
+    # ---- the abstract base class / extension API -----------------------------------------------------
+    "x01-padding-base-instantiable": dict(
+        file="padding.py",
+        old="    @abstractmethod\n    def _get_exact_dimensions_(self, render_size: Size) -> tuple[int, int, int, int]:\n        \"\"\"Returns the exact padding dimensions for",
+        new="    def _get_exact_dimensions_(self, render_size: Size) -> tuple[int, int, int, int]:\n        \"\"\"Returns the exact padding dimensions for",
+    ),
+    "x01-to-exact-only-converts-aligned": dict(
+        # a user-defined padding class is handed back unconverted (it is not an ExactPadding)
+        file="padding.py",
+        old="            if isinstance(self, ExactPadding)\n",
+        new="            if not isinstance(self, AlignedPadding)\n",
+    ),
     # ---- documented alternatives: must NOT alarm ----------------------------------------------------
     "x01-ok-resolve-returns-copy": dict(
         expect="clean",
